@@ -5,8 +5,7 @@ L0: the regex crate's replacement-template language (harness op tpl = Regex::rep
 L1: do_command_substitution (both passes, in-process: real fork/exec of helpers/csub, which prints a prepared
     file verbatim and bumps a counter file) against the extracted model whose run_capture oracle is the table
     of those files; outputs over the printable specials of the quantifier; both spellings; positions; tags;
-    several substitutions per word / line; inner lines that do not plan (model: diverges -> sent one at a
-    time under a timeout).  Oracle: head ++ output-minus-trailing-newlines ++ tail, counter == 1.
+    several substitutions per word / line; inner lines that do not plan (empty replacement).  Oracle: head ++ output-minus-trailing-newlines ++ tail, counter == 1.
 L2: argv of helpers/hp through `cicada -c`."""
 import itertools, os, re, shutil, subprocess, tempfile
 import common as C
@@ -16,7 +15,8 @@ EXTRACT = ["C11"]
 BINS = ["c11"]
 NEEDS_CICADA = True
 ALLOWED_AXIOMS = []
-PINNED = ["C11_full", "C11_refuted", "C11_partial", "C11_refuted_hang", "C11_refuted_template", "C11_refuted_whitespace"]
+PINNED = ["C11_full", "C11_refuted", "C11_partial", "C11_unplannable", "C11_terminates", "C11_refuted_template",
+          "C11_refuted_whitespace"]
 TRUSTED = [
     "Coq 8.16.1 kernel (coqc; coqchk in thorough); vm_compute only in concrete witnesses / non-vacuity examples",
     "hand transcription of should_do_dollar_command_extension / do_command_substitution_for_dollar / _for_dot "
@@ -130,17 +130,19 @@ def run(ctx, res):
         for toks in [[("", "echo"), ("`", bad), ("`", cmd(0)[0]), ("", "z")], [("", "echo"), ("", "a`%s`b`%s`c" % (cmd(0)[0], bad))],
                      [("", "echo"), ("", "a`%s`b" % bad)]]:
             cases.append((toks, [(c, None, OUTS[0]) for t in toks for c in re.findall(re.escape(csub) + r" \S+ [^`)]+", t[1])], "badbq", None))
-        hangs = [[("", "echo"), ("", "$(%s)" % bad)], [("", "echo"), ('"', "x$(%s)y" % bad)]]
+        # an inner line that does not plan: empty replacement (repaired by 85ca576), never a hang
+        for toks in [[("", "echo"), ("", "$(%s)" % bad)], [("", "echo"), ('"', "x$(%s)y" % bad), ("", "z")],
+                     [("", "echo"), ("", "a$(%s)" % bad), ("", "$(%s)" % cmd(0)[0])]]:
+            cases.append((toks, [(c, None, OUTS[0]) for t in toks for c in re.findall(re.escape(csub) + r" \S+ [^`)]+", t[1])],
+                          "unplannable", None))
         lines, tables = [], []
         for toks, runs, kind, info in cases:
             ents = [("R", c, o) for c, _, o in runs] + [("r", bad, "")]
             wf = "\x1e".join(k + a + "\x1d" + b for k, a, b in ents)
             lines.append(C.case("cs", wf, "12", X.toks_field(toks)))
-        hlines = [C.case("cs", "r" + bad + "\x1d", "12", X.toks_field(t)) for t in hangs]
-        p1 = C.write_cases("c11_l1.txt", lines + hlines)
+        p1 = C.write_cases("c11_l1.txt", lines)
         m1 = C.run_model(ctx.model["C11"], p1)
-        pi = C.write_cases("c11_l1_run.txt", lines)
-        i1 = C.run_impl(ctx.bins["c11"], pi, len(lines), shards=min(C.NCPU, 8), timeout=600)
+        i1 = C.run_impl(ctx.bins["c11"], p1, len(lines), shards=min(C.NCPU, 8), timeout=600)
         res.count("L1_do_command_substitution", len(lines))
         for (toks, runs, kind, info), a, b in zip(cases, m1, i1):
             mt, _, mlog = a.partition(" calls=")
@@ -185,6 +187,12 @@ def run(ctx, res):
                 if b != "[" + ",".join('("%s","%s")' % (C.enc(t), C.enc(s)) for t, s in toks) + "]" or ncalls_impl:
                     violate(kind="oracle", layer="L1", input=repr(toks), observed=b, failing_input=True,
                             note="a single-quoted / escaped token was substituted")
+            elif kind == "unplannable":
+                exp = "[" + ",".join('("%s","%s")' % (C.enc(tg), C.enc(x.replace("$(%s)" % bad, "").replace("$(%s)" % runs[0][0] if runs else "\0", strip_nl(OUTS[0]))))
+                                     for tg, x in toks) + "]"
+                if b != exp:
+                    violate(kind="oracle", layer="L1", input=repr(toks), expected=exp, observed=b, failing_input=True,
+                            note="an inner line that does not plan must give a diagnostic and the empty replacement")
             elif kind == "merge":
                 if "greedy_merge" in known:
                     hit("greedy_merge")
@@ -197,26 +205,6 @@ def run(ctx, res):
                 else:
                     violate(kind="oracle", layer="L1", input=repr(toks), observed=b, failing_input=True,
                             note="a backquote substitution that does not plan disturbs its neighbours")
-        # hangs: the model diverges; the implementation must be run under a timeout
-        for t, hl, a in zip(hangs, hlines, m1[len(lines):]):
-            r = X.hang_probe(ctx.bins["c11"], hl, timeout=4)
-            res.count("L1_hang_probes", 1)
-            if a == "HANG" and r == "HANG":
-                if "unplannable_hangs" in known:
-                    hit("unplannable_hangs")
-                else:
-                    violate(kind="oracle", layer="L1", input=repr(t), observed="no result within 4 s", failing_input=True,
-                            note="a substitution whose inner line does not plan never finishes")
-            elif r == "HANG":
-                violate(kind="oracle", layer="L1", input=repr(t), model=a, impl=r, failing_input=True,
-                        note="the implementation does not terminate where the model does")
-            else:
-                exp = "[" + ",".join('("%s","%s")' % (C.enc(tg), C.enc(s.replace("$(%s)" % bad, ""))) for tg, s in t) + "]"
-                if r == exp:
-                    res.extra.setdefault("findings_no_longer_reproducing", []).append("unplannable_hangs")
-                else:
-                    violate(kind="oracle", layer="L1", input=repr(t), expected=exp, observed=r, failing_input=True,
-                            note="an inner line that does not plan must give the empty replacement")
         res.sample({"layer": "L1", "input": repr(cases[1][0]).replace(work, "W"), "model": m1[1].replace(work, "W"),
                     "impl": i1[1].replace(work, "W")})
         # ------------------------------------------------------------ L2
